@@ -281,6 +281,26 @@ fn main() {
         }
     }
 
+    // 4c. near-integer quotients with long denominators: (k*d + 1) / d and (k*d - 1) / d: after the integer part a long
+    // run of zeros (or nines) precedes the first significant fraction digit
+    for d in [BigInt::from(3) * pow10(25), pow10(19) + 7, BigInt::from(7) * pow10(30) + 1, (BigInt::from(1) << 64usize) + 1] {
+        for k in [1i64, 2, 7] {
+            for e in [1i64, -1] {
+                let da = Dec { n: &d * k + e, s: 0 };
+                let db = Dec { n: d.clone(), s: 0 };
+                o.checks += 1;
+                match guard(|| bd(&da) / bd(&db)) {
+                    Ok(r) => {
+                        if let Err(e) = judge_div(&da, &db, &dec(&r), p) {
+                            o.bad("division (near-integer quotient, long denominator)", format!("{} / {}", da.show(), db.show()), e, dec(&r).show());
+                        }
+                    }
+                    Err(e) => o.bad("division", format!("{} / {}", da.show(), db.show()), "a quotient".into(), e),
+                }
+            }
+        }
+    }
+
     // 5. exp delivers the configured number of digits
     for x in [Dec::new(1, 0), Dec::new(-1, 0), Dec::new(5, 1), Dec::new(-5, 1), Dec::new(10, 0), Dec::new(1, 30), Dec::new(-3, 0)] {
         o.checks += 1;
